@@ -61,6 +61,9 @@ def build_histories(tier, seed, prop):
     for h in drive_book.generate((N_DEEP[tier] * 3) // 5, sub_seed(seed, "book-sweep"), flavour="sweep"):
         h["src"] = "random-sweep"
         hs.append(h)
+    for h in drive_book.generate(N_DEEP[tier] // 2, sub_seed(seed, "book-farfine"), flavour="farfine"):
+        h["src"] = "random-farfine"
+        hs.append(h)
     for h in drive_book.generate(max(2, N_DEEP[tier] // 50), sub_seed(seed, "book-long"), flavour="long"):
         h["src"] = "random-long"
         hs.append(h)
@@ -229,8 +232,30 @@ def check(prop, tier, seed, t0):
             "runs": len(sruns), "forged_orders_returned": sum(1 for r in sruns for e in r["ev"] if e["k"] == "ret"
                                                               and any(b[0] == "o" and b[8] != e["a"] for b in e["batch"])),
             "runs_refused_with_ValueError": sum(1 for r in sruns if r["abort"].startswith("ValueError"))}
+    if prop == "C03":
+        # run level: rounds started by the runner while trading halts come and go (TraceEvents: no round ever raises in a run)
+        from . import drive_events, group_run
+        eruns = drive_events.generate(40 if tier == "quick" else 1200, sub_seed(seed, "events", prop), kinds=("halt", "haltx", "haltm", "mixed"))
+        ev_v, _ = group_run.validate(eruns, "TraceEvents")
+        for i, r in enumerate(eruns):
+            extra_cases.append({"verdict": ev_v[i][1].get("C03", "ok"), "sig": {"src": r["src"]},
+                                "replay": {"group": "run", "cfg": r["cfg"], "seed": r["seed"], "scenario": None}})
+        extra_cov["run_level_rounds_under_trading_halts"] = {"runs": len(eruns), "aborted": sum(1 for r in eruns if r["abort"])}
     hs = build_histories(tier, seed, prop)
     verdicts, tlc_wall = validate(hs)
+    if prop in ("C01", "C02", "C08"):
+        # the books of every market of runs with the built-in events (orders rewritten by hooks before acceptance, halts,
+        # high-frequency agents): the same clauses on books the RUNNER builds
+        from . import drive_events, group_run
+        eruns = drive_events.generate(30 if tier == "quick" else 900, sub_seed(seed, "events", prop), kinds=("plimit", "mixed", "halt", "plimit"))
+        rhs, owner = group_run.book_histories(eruns)
+        rv, w2 = validate(rhs, tag="evbook")
+        tlc_wall += w2
+        for i, h in enumerate(rhs):
+            r = eruns[owner[i]]
+            extra_cases.append({"verdict": rv[i][1].get(prop, "ok"), "sig": {"src": h["src"]},
+                                "replay": {"group": "run", "cfg": r["cfg"], "seed": r["seed"], "scenario": None}})
+        extra_cov["books_of_runs_with_built_in_events"] = {"runs": len(eruns), "market_histories": len(rhs)}
     cases = cases_for(prop, hs, verdicts) + extra_cases
     extra_cov["spec_to_code_replay"] = dict(replay_book.last_stats)
     viol, known, lines = judge.judge(prop, cases)
